@@ -367,7 +367,10 @@ def coherent(pop, prob: Problem, flow, req_width=64):
     x = pop["x"]
     w = min(pop["width"] or 64, req_width)
     out = []
-    out.append(pop["ll"] is not None and len(pop["ll"]) == len(x) and close(pop["ll"], prob.ll_np(x), w))
+    exp_ll = prob.ll_np(x)
+    if getattr(prob, "recipe", False):      # the documented recipe: out-of-prior points are skipped
+        exp_ll = np.where(np.isfinite(prob.lp_np(x)), exp_ll, -np.inf)
+    out.append(pop["ll"] is not None and len(pop["ll"]) == len(x) and close(pop["ll"], exp_ll, w))
     out.append(pop["lp"] is not None and len(pop["lp"]) == len(x) and close(pop["lp"], prob.lp_np(x), w))
     if pop["lq"] is None:
         out.append(None)
@@ -447,6 +450,7 @@ def run_smc(cfg: dict, ids: IdTable | None = None, resume_from=None, role="singl
     ids = ids or IdTable()
     xp = get_xp(c["ns"])
     prob = Problem(c["dims"], c["width"], c["center"])
+    prob.recipe = bool(c["recipe"])
     tr = Tracer(prob, ids, fault_k=c["fault_k"], recipe=c["recipe"], file_path=c["path"])
     tr.fault_on = c["fault_on"]
     flow = make_flow(c, prob, xp)
@@ -505,6 +509,18 @@ def run_smc(cfg: dict, ids: IdTable | None = None, resume_from=None, role="singl
              "_beta": float(state.get("meta", {}).get("beta", float("nan"))),
              "pop": ids.of(state["samples"].x), "size": int(len(state["samples"])),
              "bytes": ids.of_bytes(blob), "_state": state}
+        # snapshot of what the payload holds *now*: the dictionary may legitimately be handed to a
+        # later resume (route "live_dict"), whose sampler then continues to append to its history
+        Hs = state.get("history")
+        pop = popdict(state["samples"])
+        e["_snap"] = {
+            "coh": coherent(pop, prob, flow, 32 if c["dtype"] == "float32" else 64),
+            "width": pop["width"], "has_rng": state.get("rng_state") is not None,
+            "keys": sorted(state.keys()),
+            "lens": _series_len(Hs) if Hs is not None else {},
+            "hbetas": [float(x) for x in Hs.beta] if Hs is not None else [],
+            "hpops": [ids.of(q.x) for q in Hs.sample_history] if Hs is not None else [],
+        }
         tr.ev.append(e)
         if c["path"] is not None:
             # emulate default file callback through the library's own routine
@@ -557,6 +573,7 @@ def run_aspire(cfg: dict, ids: IdTable | None = None, role="single", resume_file
     ids = ids or IdTable()
     xp = get_xp(c["ns"])
     prob = Problem(c["dims"], c["width"], c["center"])
+    prob.recipe = bool(c["recipe"])
     tr = Tracer(prob, ids, fault_k=c["fault_k"], recipe=c["recipe"], file_path=c["path"])
     tr.fault_on = c["fault_on"]
     minipcn_stub.reset(); emcee_stub.reset()
@@ -652,6 +669,8 @@ def project_group(gid: str, runs: list[dict], kind="smc_group") -> dict:
         for e in r["tracer"].ev:
             if "_beta" in e and math.isfinite(e["_beta"]):
                 vals.add(float(e["_beta"]))
+            if "_snap" in e:
+                vals.update(e["_snap"]["hbetas"])
         rs = r.get("restore_state")
         if rs is not None:
             if rs.get("history") is not None:
@@ -791,24 +810,14 @@ def _series_len(H):
 
 
 def _project_ckpt(e, rank, prob, flow, ids, req_width=64):
-    st = e["_state"]
-    H = st.get("history")
-    pop = popdict(st["samples"])
-    coh = coherent(pop, prob, flow, req_width)
+    sn = e["_snap"]
     b = e["_beta"]
-    out = {"t": "ckpt", "iter": e["iter"], "beta": rank.get(b, -1), "pop": e["pop"], "size": e["size"],
-           "bytes": e["bytes"], "coh": [bool(x) if x is not None else True for x in coh],
-           "width": pop["width"], "has_rng": st.get("rng_state") is not None,
-           "keys": sorted(st.keys())}
-    if H is not None:
-        out["lens"] = _series_len(H)
-        out["hbetas"] = [rank.get(float(x), -1) for x in H.beta]
-        out["hpops"] = [ids.of(s.x) for s in H.sample_history]
-    else:
-        out["lens"] = {}
-        out["hbetas"] = []
-        out["hpops"] = []
-    return out
+    return {"t": "ckpt", "iter": e["iter"], "beta": rank.get(b, -1), "pop": e["pop"], "size": e["size"],
+            "bytes": e["bytes"], "coh": [bool(x) if x is not None else True for x in sn["coh"]],
+            "width": sn["width"], "has_rng": sn["has_rng"], "keys": sn["keys"],
+            "lens": sn["lens"] or {"beta": 0, "ess": 0, "ess_target": 0, "eff_target": 0, "log_norm_ratio": 0,
+                                   "log_norm_ratio_var": 0, "mcmc_acceptance": 0, "mcmc_autocorr": 0, "sample_history": 0},
+            "hbetas": [rank.get(float(x), -1) for x in sn["hbetas"]], "hpops": list(sn["hpops"])}
 
 
 def _project_final(r, rank, hist_pops, hist_ids, betas, margin):
